@@ -136,6 +136,16 @@ def guarded_arms(ctx, rule, fn, m, inst):
             bad = True
             ctx.bad(rule, "%s:%s:guarded-arm" % (inst, _variants(a["pat"])[0][0]), "rank-arm-with-guard:" + short(pretty(a["guard"]), 60), ctx.crate.loc(fn, a["body"]),
                     "a `%s` arm guarded by `%s` handles part of the inputs of that rank differently from the general arm" % (_variants(a["pat"])[0][0], short(pretty(a["guard"]), 80)))
+    # the dispatch must be what decides the result: no path returns before reaching it (an early `return self` /
+    # `return default` for some parameter values would bypass every arm)
+    from . import e4 as _e4
+    outs = _e4.outcomes(ctx.crate, fn["body"], lambda n: n is m)
+    skipped = sorted({str(k[0]) for (k, cnt) in outs if cnt == 0})
+    if skipped:
+        bad = True
+        ctx.bad(rule, "%s:dispatch-always-reached" % inst, "returns-before-rank-dispatch:" + ",".join(skipped), ctx.crate.loc(fn, m),
+                "some non-panicking paths through %s leave the function (%s) without reaching the rank dispatch: for those inputs the "
+                "element-wise definition is not applied" % (fn["path"], ",".join(skipped)))
     return bad
 
 
